@@ -38,44 +38,48 @@ AllConfigs == {"valid",    \* table files written by an earlier process with the
 Menu == <<
   [c |-> "dis_mov",     api |-> "dis",        kind |-> "pure",  m |-> 0, ex |-> FALSE],  \* 8b4508, ModRM row with disp8
   [c |-> "dis_shl",     api |-> "dis",        kind |-> "pure",  m |-> 0, ex |-> FALSE],  \* d3e0, hands out the r_cl row
-  [c |-> "dis_in",      api |-> "dis",        kind |-> "pure",  m |-> 0, ex |-> FALSE],  \* ec, hands out the r_dx row
   [c |-> "dis_movs",    api |-> "dis",        kind |-> "pure",  m |-> 0, ex |-> FALSE],  \* a4, operands rebuilt in special_opcodes
   [c |-> "asm_mov",     api |-> "asm",        kind |-> "pure",  m |-> 0, ex |-> FALSE],  \* "mov eax, [ebx+4]"
   [c |-> "asm_shl",     api |-> "asm",        kind |-> "pure",  m |-> 0, ex |-> FALSE],  \* "shl eax, cl"
   [c |-> "att_mov",     api |-> "asm_att",    kind |-> "pure",  m |-> 0, ex |-> FALSE],  \* "movl 4(%ebx), %eax"
-  [c |-> "asm_bad",     api |-> "asm",        kind |-> "pure",  m |-> 0, ex |-> TRUE],   \* "mov eax, [-eax]" raises
+  [c |-> "asm_bad",     api |-> "asm",        kind |-> "pure",  m |-> 0, ex |-> TRUE],   \* "mov eax, [-eax]" raises in a grammar action
+  [c |-> "asm_syn",     api |-> "asm",        kind |-> "pure",  m |-> 0, ex |-> TRUE],   \* "mov eax ]" raises in the parser's error hook
   [c |-> "str_shl",     api |-> "str",        kind |-> "pure",  m |-> 0, ex |-> FALSE],  \* Intel rendering of the shared instruction
   [c |-> "att_shl",     api |-> "str_att",    kind |-> "pure",  m |-> 0, ex |-> FALSE],  \* AT&T rendering of the same object
   [c |-> "lift_shl",    api |-> "lift",       kind |-> "pure",  m |-> 0, ex |-> FALSE],  \* get_instr_expr on the same object
   [c |-> "simp_T",      api |-> "expr_simp",  kind |-> "pure",  m |-> 0, ex |-> FALSE],  \* shared tree over eax, w
   [c |-> "simp_S",      api |-> "expr_simp",  kind |-> "pure",  m |-> 0, ex |-> FALSE],  \* expr_simp(expr_simp(T))
-  [c |-> "eval_eax_m2", api |-> "eval_expr",  kind |-> "read",  m |-> 2, ex |-> FALSE],  \* module-level register, bound
   [c |-> "eval_w_m1",   api |-> "eval_expr",  kind |-> "read",  m |-> 1, ex |-> FALSE],  \* identifier absent from the state
   [c |-> "eval_w_m2",   api |-> "eval_expr",  kind |-> "read",  m |-> 2, ex |-> FALSE],  \* same identifier, bound to 7
+  [c |-> "eval_es_m1",  api |-> "eval_expr",  kind |-> "read",  m |-> 1, ex |-> FALSE],  \* segment register, absent from m1 until emul_sete_m1
   [c |-> "eval_es_m2",  api |-> "eval_expr",  kind |-> "read",  m |-> 2, ex |-> FALSE],  \* segment register bound to 0x23 in m2
   [c |-> "eval_T_m2",   api |-> "eval_expr",  kind |-> "read",  m |-> 2, ex |-> FALSE],  \* shared tree on m2
   [c |-> "eval_mem_m1", api |-> "eval_expr",  kind |-> "read",  m |-> 1, ex |-> FALSE],  \* @32[esp+4]
   [c |-> "evi_add_m1",  api |-> "eval_instr", kind |-> "write", m |-> 1, ex |-> FALSE],  \* eval_instr(lift(add eax, 1))
   [c |-> "emul_pp_m1",  api |-> "emul_lines", kind |-> "write", m |-> 1, ex |-> FALSE],  \* push eax; pop ebx
   [c |-> "emul_es_m1",  api |-> "emul_lines", kind |-> "write", m |-> 1, ex |-> FALSE],  \* mov eax, es (es absent from m1)
+  [c |-> "emul_sete_m1", api |-> "emul_lines", kind |-> "write", m |-> 1, ex |-> FALSE], \* mov es, ebx (binds es in m1)
   [c |-> "emul_div_m2", api |-> "emul_lines", kind |-> "write", m |-> 2, ex |-> TRUE]    \* div ebx with ebx = 0: raises inside eval_instr
 >>
 N == Len(Menu)
 Machines == {1, 2}
 (* calls outside the exhaustive menu: used by the replay of Caches.tla behaviours and by replays *)
 Extra == <<
+  [c |-> "eval_eax_m2", api |-> "eval_expr",  kind |-> "read",  m |-> 2, ex |-> FALSE],  \* module-level register, bound
+  [c |-> "dis_in",      api |-> "dis",        kind |-> "pure",  m |-> 0, ex |-> FALSE],  \* ec, hands out the r_dx row
   [c |-> "asm_in",      api |-> "asm",        kind |-> "pure",  m |-> 0, ex |-> FALSE],  \* "in al, dx"
   [c |-> "simp_U",      api |-> "expr_simp",  kind |-> "pure",  m |-> 0, ex |-> FALSE],  \* U = w + 1
   [c |-> "simp_w",      api |-> "expr_simp",  kind |-> "pure",  m |-> 0, ex |-> FALSE],
   [c |-> "eval_U_m1",   api |-> "eval_expr",  kind |-> "read",  m |-> 1, ex |-> FALSE],
-  [c |-> "eval_U_m2",   api |-> "eval_expr",  kind |-> "read",  m |-> 2, ex |-> FALSE]
+  [c |-> "eval_U_m2",   api |-> "eval_expr",  kind |-> "read",  m |-> 2, ex |-> FALSE],
+  [c |-> "evi_setw_m1", api |-> "eval_instr", kind |-> "write", m |-> 1, ex |-> FALSE]   \* eval_instr([w = 7]): binds w in m1
 >>
 AllCalls == Menu \o Extra
 (* the argument objects ("fixtures") whose structure is fingerprinted after every call, in record order:  *)
 (* literals (byte strings, text lines), the shared instruction objects, the shared identifier w, the      *)
 (* shared trees T, U, Q, the program counter constant, the module-level register expressions of ia32_sem, *)
 (* and the one piece of interpreter-wide state every later import of the client depends on: sys.path      *)
-Fixtures == <<"lit", "I_shl", "I_add", "I_push", "I_pop", "I_moves", "I_div", "w", "T", "U", "Q", "pc", "regs", "sys.path">>
+Fixtures == <<"lit", "I_shl", "I_add", "I_push", "I_pop", "I_moves", "I_sete", "I_div", "w", "T", "U", "Q", "pc", "regs", "sys.path">>
 ASSUME PrintT("MENU " \o ToJson([calls |-> AllCalls, n |-> N, fixtures |-> Fixtures]))
 
 VARIABLES cfg,    \* cache configuration of the process that runs the history
